@@ -592,8 +592,8 @@ class Arc(Term):
             self.height
             * np.where(np.isnan(x), np.nan, 1.0)
             * np.where(
-                (left & (c <= x) & (x <= s)) | (right & (s <= x) & (x <= c)),
-                np.sqrt(r**2 - np.square(x - c)) / abs(r),
+                (left & (e <= x) & (x <= s)) | (right & (s <= x) & (x <= e)),
+                np.sqrt(np.maximum(r**2 - np.square(x - c), 0.0)) / abs(r),
                 (left & (x < e)) | (right & (x > e)),
             )
         )
